@@ -217,7 +217,8 @@ std::vector<uint8_t> gstuffing_v(struct iovec *vec, size_t n, const gstuff_conte
         struct iovec *v = vec + i;
         sz += v->iov_len;
     }
-    ret.resize(sz * 2 + 2);
+    // worst case: every byte and the crc are escaped, plus the two markers
+    ret.resize(sz * 2 + 4);
     size_t sz2 = gstuffing_v(vec, n, (char *)&ret[0], ctx);
     ret.resize(sz2);
     return ret;
@@ -226,7 +227,8 @@ std::vector<uint8_t> gstuffing_v(struct iovec *vec, size_t n, const gstuff_conte
 std::vector<uint8_t> gstuffing(igris::buffer buf, const gstuff_context& ctx)
 {
     std::vector<uint8_t> ret;
-    ret.resize(buf.size() * 2 + 2);
+    // worst case: every byte and the crc are escaped, plus the two markers
+    ret.resize(buf.size() * 2 + 4);
     size_t sz2 = gstuffing(buf.data(), buf.size(), (char *)&ret[0], ctx);
     ret.resize(sz2);
     return ret;
